@@ -29,6 +29,30 @@ func isResponder(f *ssa.Function) bool {
 
 // InstallResponderContracts marks responders and gives them the nResp clause.
 func InstallResponderContracts(em *Emitted) {
+	// writeJSON(w, v, name): an array body declared in place (a Go slice) must not
+	// be handed over as a nil slice: it would be written as null, which an array
+	// schema that is not nullable does not allow (C07, last sentence; C02)
+	if wj := em.Func("writeJSON"); wj != nil {
+		if c := em.W.ContractFor(wj); c != nil && c.ArgHook == nil {
+			c.ArgHook = func(e *FuncEnc, argVals []ssa.Value, args []string) []NamedFormula {
+				if len(argVals) < 2 {
+					return nil
+				}
+				mi, ok := argVals[1].(*ssa.MakeInterface)
+				if !ok {
+					return nil
+				}
+				sl, ok := mi.X.Type().(*types.Slice)
+				if !ok {
+					return nil
+				}
+				if b, ok := sl.Elem().Underlying().(*types.Basic); ok && b.Kind() == types.Uint8 {
+					return nil
+				}
+				return []NamedFormula{{Name: "array-body-not-nil", Props: []string{"C02", "C07"}, Formula: not(eq(sx("sl_base", e.v(mi.X)), "0"))}}
+			}
+		}
+	}
 	for _, f := range em.W.Functions() {
 		if !isResponder(f) || strings.Contains(f.String(), "Client") {
 			continue
